@@ -26,3 +26,4 @@ def rules(ctx):
     S.handle_close_rules(ctx)
     S.commit_mode_setter_rules(ctx)
     S.state_writer_rules(ctx)
+    S.header_codec_rules(ctx)
